@@ -53,13 +53,27 @@ def run(ctx):
             corpora.append(comb)
     if q:
         corpora = corpora[::2]
+    # dedicated corpora: a first category that is perfectly balanced in identical contexts (its classifier is exactly zero)
+    # followed by a category that the context decides
+    special = [[("tok", "a/A/X あ"), ("tok", "a/B/X あ"), ("tok", "a/A/Y 1"), ("tok", "a/B/Y 1")],
+               [("tok", "あ/P/S a"), ("tok", "あ/Q/S a"), ("tok", "あ/P/T 1"), ("tok", "あ/Q/T 1"), ("tok", "あ/P/T 1a")]]
+    pool = list(pool)
+    for sp in special:
+        idx = []
+        for x in sp:
+            pool.append(x)
+            idx.append(len(pool) - 1)
+        for _ in range(3):
+            corpora.append(tuple(idx))       # three times: run with solvers 5, 6 (L1: exactly-zero classifiers) and 1
+    nspecial = 3 * len(special)
     cases = []
     for i, comb in enumerate(corpora):
         d = DICTS[i % len(DICTS)]
         cfgs = [(2, 2, 2, 2), (1, 3, 2, 1), (3, 1, 1, 2)]
         cw, cn, tw, tn = cfgs[i % len(cfgs)]
         cases.append({"id": i, "corpus": [line(pool[k]) for k in comb], "tagdict": [line(x) for x in d],
-                      "cfg": {"cw": cw, "cn": cn, "tw": tw, "tn": tn, "dict": [], "dn": 2}, "solver": [1, 1, 5, 3][i % 4]})
+                      "cfg": {"cw": cw, "cn": cn, "tw": tw, "tn": tn, "dict": [], "dn": 2},
+                      "solver": [5, 6, 1][(len(corpora) - 1 - i) % 3] if i >= len(corpora) - nspecial else [1, 1, 5, 3][i % 4]})
     wd = os.path.join(vlib.WORK, "record")
     os.makedirs(wd, exist_ok=True)
     cp = os.path.join(wd, "C12-corpora.ndjson")
